@@ -12,7 +12,7 @@ import itertools
 from mc import domains as D
 from mc.engine import BfsPart, InputPart, Viol
 from mc.props import c10
-from mc.props.common import IT, PT, Textgrid, errors, PE, call, canon, snap_tg
+from mc.props.common import IT, PT, Textgrid, errors, PE, call, canon, snap_tg, fresh
 
 NAMES = ("a", "b", "c", "d")
 SLOTS = (
@@ -104,6 +104,10 @@ def m_obs(m):
     return (tuple(n for n, _ in m[0]), m[1], m[2], tuple(slot_canon(s, n) for n, s in m[0]))
 
 
+_SE = fresh(("silence", "error"))
+_W = fresh("warning")
+
+
 def _ops(maxtiers, nslots):
     def ops(m):
         n = len(m[0])
@@ -111,9 +115,9 @@ def _ops(maxtiers, nslots):
             for nm in NAMES[:3]:
                 for s in range(nslots):
                     for idx in [None] + list(range(-2, n + 3)):
-                        for mode in ("silence", "error"):
+                        for mode in _SE:
                             yield ("add", nm, s, idx, mode)
-                    yield ("add", nm, s, None, "warning")
+                    yield ("add", nm, s, None, _W)
         for nm in NAMES:
             yield ("rm", nm)
         for a in NAMES:
@@ -122,7 +126,7 @@ def _ops(maxtiers, nslots):
         for a in NAMES:
             for b in NAMES[:3]:
                 for s in (0, 2, 3, 5)[: 3 if nslots < 6 else 4]:
-                    for mode in ("silence", "error"):
+                    for mode in _SE:
                         yield ("rep", a, b, s, mode)
     return ops
 
